@@ -111,8 +111,9 @@ func runMode(args []string) {
 	sum := Summary{T: "sum", Prop: *prop, From: *from, To: *to, Tags: map[string]int{}, Classes: map[string]int{}, Policies: map[string]int{}, NumCPUs: map[string]int{}}
 	fps := map[string]bool{}
 	t0 := time.Now()
+	tStart := t0
 	for i := *from; i < *to; i++ {
-		if *maxWall > 0 && time.Since(t0).Seconds() > *maxWall {
+		if *maxWall > 0 && time.Since(tStart).Seconds() > *maxWall {
 			sum.Stopped = fmt.Sprintf("wall limit after %d cases", sum.Cases)
 			sum.To = i
 			break
